@@ -158,7 +158,11 @@ def reachable(ctx: Ctx, n, salt):
             else:
                 (tc, c) = rng.choice(leaves)
                 yield (f"(({ta}) | ({tb})) & ~({tc})", (a | b) & ~c, [ta, tb, tc], ("and", ("or", ("leaf", ta), ("leaf", tb)), ("not", ("leaf", tc))))
-        except Exception:  # noqa: BLE001  (C01's concern)
+        except Exception as e:  # noqa: BLE001
+            # C01's operands are built directly, never parsed: an operator that raises only on parsed operands (which carry their
+            # `simplified` text) would be seen nowhere else.  `===` leaves may raise ValueError (C04 says so).
+            if not (isinstance(e, ValueError) and any("===" in t for t in (ta, tb))):
+                ctx.finding(f"op-raise|{type(e).__name__}|{ta}|{tb}", f"an operator on parsed specifiers raised {type(e).__name__}", {"a": ta, "b": tb}, "a specifier", repr(e))
             continue
 
 
